@@ -1,5 +1,6 @@
 import OapiVerif.Model.TypeMap
 import OapiVerif.Gen.C08
+import OapiVerif.Proofs.SchemaOrder
 /-!
 C08 — Go types follow the documented schema mapping.
 
@@ -61,3 +62,36 @@ theorem C08_json_ignore_false_is_unset (r : FieldRow) (h : r.jsonIgnore = 2) :
   simp [docTagName, docOmit, docPointer, h]
 
 end OapiVerif.TypeMap
+
+namespace OapiVerif.SchemaOrder
+open OapiVerif.Walks
+
+/-- `x-order` changes the order and nothing else: the keys that come out are the keys of the dictionary, each once. -/
+theorem C08_x_order_keeps_every_key (m : List Entry) : (sortedSchemaKeys m).Perm (m.map (·.key)) :=
+  (sortedEntries_perm m).map _
+
+/-- … and the order is the documented one: ascending `x-order` (an entry without one counts as the size of the
+dictionary), by name among equal orders. -/
+theorem C08_x_order_ascending (m : List Entry) :
+    (sortedEntries m).Pairwise (fun a b => eff m.length a < eff m.length b ∨
+      (eff m.length a = eff m.length b ∧ kle a.key b.key = true)) := by
+  refine (sortedEntries_pairwise m).imp ?_
+  intro a b h
+  unfold ole at h
+  by_cases he : eff m.length a = eff m.length b
+  · right; simp only [he, if_true] at h; exact ⟨he, h⟩
+  · left; simp only [he, if_false, decide_eq_true_eq] at h; exact h
+
+/-- Without any `x-order` the order is the plain order of the names. -/
+theorem C08_without_x_order_by_name (m : List Entry) (h : ∀ e ∈ m, e.order = none) :
+    (sortedSchemaKeys m).Pairwise (fun a b => kle a b = true) := by
+  unfold sortedSchemaKeys
+  rw [List.pairwise_map]
+  refine (List.Pairwise.and_mem.mp (sortedEntries_pairwise m)).imp ?_
+  intro a b ⟨ha, hb, hab⟩
+  have ha' := h a ((sortedEntries_perm m).mem_iff.mp ha)
+  have hb' := h b ((sortedEntries_perm m).mem_iff.mp hb)
+  unfold ole eff at hab
+  simpa [ha', hb'] using hab
+
+end OapiVerif.SchemaOrder
